@@ -538,6 +538,32 @@ def nonzero(a):
     raise ModelGap('nonzero ndim')
 
 
+def where(condition, x=None, y=None):
+    """np.where: with one argument nonzero(condition); with three, an array with elements from x where condition is
+    true and from y elsewhere (all three broadcast together)."""
+    if x is None and y is None:
+        return nonzero(condition)
+    if x is None or y is None:
+        raise ValueError('either both or neither of x and y should be given')
+    cond = condition if isinstance(condition, ndarray) else asarray_seq(condition, None)
+    xa = x if isinstance(x, ndarray) else asarray_seq(x, None)
+    ya = y if isinstance(y, ndarray) else asarray_seq(y, None)
+    shape = _broadcast_shapes(_broadcast_shapes(cond._shape, xa._shape), ya._shape)
+    cc = _broadcast_flat(cond._cells(), cond._shape, shape)
+    xc = _broadcast_flat(xa._cells(), xa._shape, shape)
+    yc = _broadcast_flat(ya._cells(), ya._shape, shape)
+    dt = _np.result_type(scalar_dtype(x) if not isinstance(x, ndarray) and not isinstance(x, (list, tuple)) else xa._dtype,
+                         scalar_dtype(y) if not isinstance(y, ndarray) and not isinstance(y, (list, tuple)) else ya._dtype)
+    cells = []
+    for c, a, b in zip(cc, xc, yc):
+        t = _truth(c)
+        if isinstance(t, bool):
+            cells.append(cast_cell(a if t else b, dt))
+        else:
+            raise ModelGap('np.where on a symbolic condition')
+    return ndarray._from_cells(cells, shape, dt)
+
+
 def flatnonzero(a):
     if not isinstance(a, ndarray):
         a = asarray_seq(a, None)
